@@ -559,7 +559,7 @@ func runC18(c *Ctx) {
 				}
 				st := core.Proved
 				for _, g := range gs {
-					if want.MatchString(g.Text) {
+					if want.MatchString(g.Text) || (swapEquality(g.Text) != "" && want.MatchString(swapEquality(g.Text))) {
 						st = core.Proved
 						goto done
 					}
@@ -977,7 +977,7 @@ func runC18(c *Ctx) {
 				}
 				okG := false
 				for _, re := range allowed {
-					if re.MatchString(g.Text) {
+					if re.MatchString(g.Text) || (swapEquality(g.Text) != "" && re.MatchString(swapEquality(g.Text))) {
 						okG = true
 					}
 				}
